@@ -310,6 +310,20 @@ def check(ctx):
                N.txt(fields.get('available')), N.txt(fields.get('rate'))),
            construct='initial budget and rate')
     # ---- C20.4 -----------------------------------------------------------
+    # scaling down is not rate limited: the delete request of a monitor that
+    # is not suspended depends on the two counts (and the policy) alone - a
+    # monitor whose target is 0 has rate 0 and budget 0 and still has to
+    # delete its last instances
+    budget = set(name for name, vals in defs.items() if any(
+        "['rate']" in N.txt(v) or "['available']" in N.txt(v)
+        for v in vals))
+    rated = [f for f in N.raw_only(facts[dnode]) if
+             (f.mentions & budget) or "['rate']" in N.show(f) or
+             "['available']" in N.show(f)]
+    ctx.ob('C20.4', func, dnode, not rated,
+           'the delete request does not depend on the rate budget '
+           '(conditions on it: %s)' % sorted(N.show(f) for f in rated),
+           construct='scale-down not rate limited')
     surplus = {'current_count': 1, 'count': -1}
     payload = K.kwarg(dcall, 'payload')
     pvars = [n.id for n in ast.walk(payload) if isinstance(n, ast.Name)
